@@ -11,7 +11,7 @@
                  (collection, dataset type, data ID)
    valid_at s c ty d x : the datasets valid at instant x, in table order. *)
 From Coq Require Import ZArith NArith List Bool Lia.
-From V Require Import Base.Tri Gen.TimespanGen Model.Timespan Proofs.TimespanProofs Model.Calib Proofs.CalibProofs
+From V Require Import Base.Tri Gen.TimespanGen Gen.CalibDiffGen Model.Timespan Proofs.TimespanProofs Model.Calib Proofs.CalibProofs
   Model.CalibPath Proofs.CalibProofsX1 Proofs.CalibProofsX2.
 Import ListNotations.
 Open Scope N_scope.
@@ -122,6 +122,15 @@ Theorem decertify_ok_iff : forall s c ty t sel,
   snd (decertify s c ty t sel) = Ok <-> (lookup c (colls s) = Some KCalibration /\ lookup ty (dtypes s) = Some true).
 Proof. exact decertify_ok_iff_p. Qed.
 Print Assumptions decertify_ok_iff.
+
+(* the REGENERATED Timespan.difference (Gen/CalibDiffGen.v, from the current source) that `decertify` re-inserts: pieces
+   well formed, pairwise disjoint, covering exactly a \ b (C11's difference_spec transported to the generated code) *)
+Theorem generated_difference_spec : forall a b, wf a -> wf b ->
+  Forall wf (py_difference a b) /\
+  (forall x p q, In p (py_difference a b) -> In q (py_difference a b) -> mem x p -> mem x q -> p = q) /\
+  (forall x, (exists p, In p (py_difference a b) /\ mem x p) <-> (mem x a /\ ~ mem x b)).
+Proof. intros a b Ha Hb. rewrite py_difference_diff. destruct (diff_spec_p a b Ha Hb) as (H1 & _ & H3 & H4). split; [exact H1|]. split; [exact H3|exact H4]. Qed.
+Print Assumptions generated_difference_spec.
 
 (* ---- remove ---- *)
 Theorem remove_pointwise : forall s ds c ty d x,
